@@ -2,6 +2,8 @@ import IoraModel.Model.EngineLifecycle
 import IoraModel.Model.CloseFanout
 import IoraModel.Model.LifecycleSites
 import IoraModel.Lemmas.EngineSteps
+import IoraModel.Lemmas.EngineCloseReq
+import IoraModel.Lemmas.FdTags
 import IoraModel.Lemmas.EngineStale
 import IoraModel.Lemmas.EngineFlags
 import IoraModel.Lemmas.CloseFanout
@@ -61,6 +63,46 @@ theorem skeletons_conform :
 restarted engine (`apiStart`) starts from empty maps as the model says. -/
 theorem drainErasesTags : Iora.Gen.CloseSites.tcpDrainErasesTags = true ∧ Iora.Gen.CloseSites.udpDrainErasesTags = true := by decide
 
+/-- **fd reuse** (review F6b; the layer below the lifecycle model: which session a kernel event on an fd NUMBER reaches).  For
+every history of session creations on fd numbers the kernel hands out (never one that is still open - reuse of CLOSED numbers is
+the point), `closeNow`s and shutdown drains (each followed by a possible restart: start() does not touch the maps), the session
+`handleFdEvent` dispatches an event on `fd` to is in the session map, not closed, and owns exactly that fd - a stale event on a
+reused fd number reaches the live NEW owner, never a freed or closed session.  The model instance is DEFINED from the translator
+fact `drain erases the tags` of either engine (`drainErasesTags`). -/
+theorem fd_tags_point_at_live_owner (erases : Bool)
+    (he : erases = Iora.Gen.CloseSites.tcpDrainErasesTags ∨ erases = Iora.Gen.CloseSites.udpDrainErasesTags)
+    (ops : List Iora.FdTags.Op) (fd : Iora.FdTags.Fd) (sid : Iora.FdTags.Sid)
+    (h : Iora.FdTags.dispatch (Iora.FdTags.run { erases := erases } ops) fd = some sid) :
+    ∃ s, (Iora.FdTags.run { erases := erases } ops).sess sid = some s ∧ s.fd = fd ∧ s.closed = false := by
+  have e : erases = true := by
+    rcases he with he | he
+    · rw [he]; exact drainErasesTags.1
+    · rw [he]; exact drainErasesTags.2
+  exact (Iora.FdTags.inv_run ops (t := { erases := erases }) e (Iora.FdTags.inv_init erases)).tag_live fd sid h
+
+/-- ... and every open session is reachable: it is tagged under its own (open) fd -/
+theorem fd_tags_cover_open_sessions (ops : List Iora.FdTags.Op) (sid : Iora.FdTags.Sid) (s : Iora.FdTags.Sess)
+    (hs : (Iora.FdTags.run { erases := Iora.Gen.CloseSites.tcpDrainErasesTags } ops).sess sid = some s) (hc : s.closed = false) :
+    Iora.FdTags.dispatch (Iora.FdTags.run { erases := Iora.Gen.CloseSites.tcpDrainErasesTags } ops) s.fd = some sid :=
+  ((Iora.FdTags.inv_run ops (t := { erases := Iora.Gen.CloseSites.tcpDrainErasesTags }) drainErasesTags.1
+    (Iora.FdTags.inv_init _)).open_tagged sid s hs hc).2
+
+/-- the variant WITHOUT the tag erase in the drain (the code before repair F35) -/
+def F35_statement : Prop :=
+  ∀ (ops : List Iora.FdTags.Op) (fd : Iora.FdTags.Fd) (sid : Iora.FdTags.Sid),
+    Iora.FdTags.dispatch (Iora.FdTags.run { erases := false } ops) fd = some sid →
+    ∃ s, (Iora.FdTags.run { erases := false } ops).sess sid = some s ∧ s.fd = fd ∧ s.closed = false
+
+/-- F35: session 1 on fd 5, stop (drain), start, session 2 gets fd 5 again: `emplace` does not overwrite the stale tag, the event of
+session 2 is dispatched to the freed session 1 -/
+theorem F35_refuted : ¬ F35_statement := by
+  intro h
+  obtain ⟨s, hs, _⟩ := h [.insert 1 5, .drain, .insert 2 5] 5 1 (by decide)
+  have hn : (Iora.FdTags.run { erases := false } [.insert 1 5, .drain, .insert 2 5]).sess 1 = none := by decide
+  rw [hn] at hs; cases hs
+
+example : Iora.FdTags.dispatch (Iora.FdTags.run {} [.insert 1 5, .drain, .insert 2 5, .insert 3 6, .closeNow 2, .insert 4 5]) 5 = some 4 := by decide
+
 /-- Tie (translator): `_nextSessionId` is a `std::atomic<SessionId>` in both engines (connect() on application threads and accepts on
 the I/O thread allocate from it concurrently: the model's allocation steps are atomic), and every direct close-callback call site
 works on its own copy of `_cbs.onClose` taken under `_cbMutex`. -/
@@ -68,6 +110,27 @@ theorem atomics_and_callback_copies :
     Iora.Gen.CloseSites.tcpNextIdAtomic = true ∧ Iora.Gen.CloseSites.udpNextIdAtomic = true ∧
     Iora.Gen.CloseSites.tcpCloseCbCalls = Iora.Gen.CloseSites.tcpOnCloseCopies ∧
     Iora.Gen.CloseSites.udpCloseCbCalls = Iora.Gen.CloseSites.udpOnCloseCopies := by decide
+
+/-- Tie (translator), the API surface the step system takes as atomic actions: `close(sid)` of both engines is exactly one
+`enqueue(Close sid)` (what `T2_close_request_honoured` is about); the three TimerService handlers are exactly one
+`enqueue(Close sid origin)` with the origin the model's `In.timer` carries; `start()` re-opens the queue and creates the loop
+without touching the session maps or the id counter; and `_nextSessionId` is used NOWHERE except its declaration (initial value =
+the model's) and the post-increments the site table lists - no store, no assignment, no reset: ids cannot be reused, also not
+across stop()/start() (review F4, mutant `_nextSessionId.store(1)` in start()). -/
+theorem api_skeletons_conform :
+    Iora.Gen.CloseSites.tcpClose = tcpClose ∧ Iora.Gen.CloseSites.udpClose = udpClose ∧
+    Iora.Gen.CloseSites.tcpTimerHandlers = tcpTimerHandlers ∧
+    Iora.Gen.CloseSites.tcpStart = tcpStart ∧ Iora.Gen.CloseSites.udpStart = udpStart ∧
+    Iora.Gen.CloseSites.tcpNextIdInit = (init {}).nextId ∧ Iora.Gen.CloseSites.udpNextIdInit = (init {}).nextId ∧
+    Iora.Gen.CloseSites.tcpNextIdOtherUses = 0 ∧ Iora.Gen.CloseSites.udpNextIdOtherUses = 0 ∧
+    Iora.Gen.CloseSites.tcpNextIdAllocs = (tcpTable.filter (·.1.kind == "idAlloc")).length ∧
+    Iora.Gen.CloseSites.udpNextIdAllocs = (udpTable.filter (·.1.kind == "idAlloc")).length := by decide
+
+/-- Tie (translator): both `_peerIndex.erase` sites of UdpEngine (closeNow, shutdownDrain) erase the entry only when it maps to the
+closing session (repair F17) - the two configuration flags the lockstep driver instantiates the model with (`peerEraseGuarded`,
+`peerEraseGuardedDrain`); the theorems hold for either value, the pin makes a flip of the source visible at the proof layer too. -/
+theorem udp_peer_erase_guarded :
+    Iora.Gen.CloseSites.udpPeerEraseGuardedCloseNow = true ∧ Iora.Gen.CloseSites.udpPeerEraseGuardedDrain = true := by decide
 
 /-! ## the engines: an engine is `Tcp.step` or `Udp.step` -/
 
@@ -133,6 +196,53 @@ theorem T2_open_ids_are_tracked (e : Engine) (cfg : Cfg) (is : List In) (sid : S
   · rcases h.ann_dom sid ha with ⟨s, hs⟩ | h3
     · exact Or.inr ⟨s, hs, key s hs⟩
     · exact absurd h3 hopen
+
+theorem Engine.sinv_step (e : Engine) (g : G) (i : In) (h : SInv g) : SInv (e.step g i) := by
+  cases e
+  · exact Tcp.sinv_step g i h
+  · exact Udp.sinv_step g i h
+
+/-- **T2, an accepted close() request is honoured** (review F3; what seeded change C04-d breaks).  Take any history `is₁`, an id the
+application has seen by then (connect()/connectViaListener() returned it, or a callback announced it), a call `close(sid)` at a moment
+the command queue accepts it (`cmdsClosed = false`: `close()` answers true), and any continuation `is₂` - other API calls, timers,
+I/O events, faults, stop, restart - at whose end the I/O thread has no work left (`queue = batch = []`: every queued command has been
+taken by process(), or the drain has run).  Then the id HAS its close notification (by T1 exactly one).  The request cannot be lost:
+it is queued FIFO behind the id's own Connect, so when process() reaches it the session is in the table - or already closed. -/
+theorem T2_close_request_honoured (e : Engine) (cfg : Cfg) (is₁ is₂ : List In) (sid : Sid)
+    (hseen : sid ∈ retOf (after e cfg is₁).tr ∨ sid ∈ annOf (after e cfg is₁).tr)
+    (hopen : (after e cfg is₁).cmdsClosed = false)
+    (hdone : (after e cfg (is₁ ++ In.apiClose sid :: is₂)).queue = [] ∧ (after e cfg (is₁ ++ In.apiClose sid :: is₂)).batch = []) :
+    sid ∈ closesOf (after e cfg (is₁ ++ In.apiClose sid :: is₂)).tr := by
+  have hrun : after e cfg (is₁ ++ In.apiClose sid :: is₂) = run e.step (e.step (after e cfg is₁) (.apiClose sid)) is₂ := by
+    simp [after, run, List.foldl_append]
+  have hstep : e.step (after e cfg is₁) (.apiClose sid) = apiPlain (.close sid .app) (after e cfg is₁) := by
+    cases e <;> simp [Engine.step, Tcp.step, Udp.step, stepShared]
+  have h1 := reachable e cfg is₁
+  have h2 : SInv (apiPlain (.close sid .app) (after e cfg is₁)) := by rw [← hstep]; exact e.sinv_step _ _ h1
+  have htr : (apiPlain (.close sid .app) (after e cfg is₁)).tr = (after e cfg is₁).tr := by
+    unfold apiPlain enqueue; split <;> rfl
+  have hseen2 : Seen sid (apiPlain (.close sid .app) (after e cfg is₁)) := by
+    unfold Seen; rw [htr]; exact hseen
+  have hh := hon_run e.step e.sinv_step
+    (fun sid g i hs hse hho => by
+      cases e
+      · exact Tcp.hon_step g i hs hse hho
+      · exact Udp.hon_step g i hs hse hho)
+    sid _ h2 hseen2 (hon_after_apiClose sid _ hopen) is₂
+  rw [hrun, hstep] at hdone ⊢
+  rcases hh with h | ⟨pre, post, he, _⟩
+  · exact h
+  · rw [hdone.1, hdone.2] at he
+    cases pre <;> simp at he
+
+/-- the hypotheses of `T2_close_request_honoured` are satisfiable by a non-trivial history - connect, close() while the Connect is
+still queued (the shape of seed C04-d), one process() - and the conclusion is the `Unknown/app` close of `procClose` -/
+example : (after .tcp {} ([.apiConnect .none false] ++ In.apiClose 1 :: [.ioSwap, .ioCmd [.again, .ok, .ok], .ioCmd []])).tr =
+    [.ret 1 true, .announce 1 .connect, .close 1 (.procClose .app)] := by decide
+example : (after .tcp {} ([.apiConnect .none false] ++ In.apiClose 1 :: [.ioSwap, .ioCmd [.again, .ok, .ok], .ioCmd []])).queue = [] ∧
+    (after .tcp {} ([.apiConnect .none false] ++ In.apiClose 1 :: [.ioSwap, .ioCmd [.again, .ok, .ok], .ioCmd []])).batch = [] := by decide
+/-- FC02b: a connect by name whose resolver thread cannot be created (`A.throw`) ends with the close of its id -/
+example : (after .tcp {} [.apiConnect .none true, .ioSwap, .ioCmd [.throw]]).tr = [.ret 1 true, .close 1 .resolveThrow] := by decide
 
 /-- **T3a** Nothing after the close - unconditionally, for every history and every environment: every engine callback (accept,
 connect, data, close) is for an id that has not been closed before it. -/
@@ -303,90 +413,171 @@ example : (closeFan 7 (runOps { hasGlobal := true } [.act (.observe 7), .act (.o
 
 /-! ## nothing after the close, at the Transport level (T3 for the callbacks the APPLICATION sees) -/
 
-/-- Tie (translator): step 6 of the Transport close handler and the entry of `Transport::setReadMode` are, statement by statement,
-what `Model/CloseDeliver.lean` mirrors; in particular the close handler erases the session's read mode unconditionally (seeded
-change C02-c makes it conditional on an empty buffer) and `setReadMode` returns (true, having done nothing) for a closed tombstone before it touches `readModes`
-(repair FC02a) - the two facts `T3_no_delivery_after_close_transport` needs (`Deliver.Sound`). -/
+set_option maxRecDepth 8192 in
+/-- Tie (translator): the syncMutex block of the Transport close handler and the entry of `Transport::setReadMode` are, statement by
+statement, what `Model/CloseDeliver.lean` mirrors; in particular the close handler erases the session's read mode unconditionally
+(seeded change C02-c makes it conditional on an empty buffer), `setReadMode` returns (true, having done nothing) for a closed
+tombstone before it touches `readModes` (repair FC02a), and the handler runs that block BEFORE the global close callback and the
+observers (repair FC03c; the `fanout` token skeleton of `skeletons_conform` pins the same order with the locks) - the three facts
+`T3_no_delivery_after_close_transport` needs (`Deliver.Sound`). -/
 theorem delivery_skeletons_conform :
     Iora.Gen.CloseSites.closeStep6 = closeStep6 ∧ Iora.Gen.CloseSites.setReadModeEntry = setReadModeEntry ∧
-    Iora.Gen.CloseSites.closeErasesModeAlways = true ∧ Iora.Gen.CloseSites.setReadModeRefusesTombstone = true := by decide
+    Iora.Gen.CloseSites.closeErasesModeAlways = true ∧ Iora.Gen.CloseSites.setReadModeRefusesTombstone = true ∧
+    Iora.Gen.CloseSites.closeMarksBeforeCallbacks = true := by decide
 
-/-- the model instance the driver runs is the sound one: its two variant flags are the Gen facts -/
+/-- the model instance the driver runs is the sound one: its three variant flags are the Gen facts -/
 theorem delivery_variant_sound (c : Iora.Deliver.Cfg)
-    (h1 : c.eraseAlways = Iora.Gen.CloseSites.closeErasesModeAlways) (h2 : c.tombGuard = Iora.Gen.CloseSites.setReadModeRefusesTombstone) :
+    (h1 : c.eraseAlways = Iora.Gen.CloseSites.closeErasesModeAlways) (h2 : c.tombGuard = Iora.Gen.CloseSites.setReadModeRefusesTombstone)
+    (h3 : c.markFirst = Iora.Gen.CloseSites.closeMarksBeforeCallbacks) :
     Iora.Deliver.Sound c := by
-  rw [Iora.Deliver.Sound, h1, h2]; exact ⟨delivery_skeletons_conform.2.2.1, delivery_skeletons_conform.2.2.2⟩
+  rw [Iora.Deliver.Sound, h1, h2, h3]
+  exact ⟨delivery_skeletons_conform.2.2.1, delivery_skeletons_conform.2.2.2.1, delivery_skeletons_conform.2.2.2.2⟩
 
 open Iora.Deliver in
 /-- **T3 (Transport)** Nothing is delivered after the close, at the level of the callbacks the application registers with
-`Transport`: for every configuration of the sound variant and EVERY sequential history of engine callbacks (accept, connect, data,
-close - for any ids, any payloads) and application calls (`setReadMode` to any mode, `receiveSync` of any length, on any id, open,
-closed or unknown) in which the ENGINE honours its contract `EngineContract` (no accept / connect / data for an id after its
-close - what `T3_nothing_after_close` proves of both engines), no accept, connect or data callback for an id follows the run of
-its close handler (`closeH sid`: the global close callback and the observers of T5 fire there).  In particular the bytes a Sync /
-Disabled session had buffered when it closed are never flushed through the data callback by a later `setReadMode(sid, Async)`,
-whatever mode switches precede it - they stay readable through `receiveSync` (C03 T2/T7). -/
+`Transport`: for every configuration of the sound variant (incl. the handler order of repair FC03c: marked closed BEFORE the close
+callbacks) and EVERY history of engine callbacks (accept, connect, data, and the close handler as its TWO halves `closeMark` /
+`closeCbs` - for any ids, any payloads) and complete application calls (`setReadMode` to any mode, `receiveSync` of any length, on
+any id, open, closed or unknown - ALSO between the two halves of a handler run, i.e. on another thread while the close callbacks
+are about to run or running) in which the handler runs have the order of the configuration (`HandlerOrder cfg.markFirst`) and the
+ENGINE honours its contract `EngineContract` (no accept / connect / data for an id once its close handler has been entered - what
+`T3_nothing_after_close` proves of both engines), no accept, connect or data callback for an id follows the start of its close
+callbacks (`closeH sid`: the global close callback and the observers of T5 fire there).  In particular the bytes a Sync / Disabled
+session had buffered when it closed are never flushed through the data callback by a `setReadMode(sid, Async)` that runs while or
+after the close callbacks run, whatever mode switches precede it - they stay readable through `receiveSync` (C03 T2/T7). -/
 theorem T3_no_delivery_after_close_transport (cfg : Deliver.Cfg) (hs : Sound cfg) (ops : List Deliver.Op) (hc : EngineContract ops)
+    (ho : HandlerOrder cfg.markFirst ops)
     (pre : List Deliver.Out) (sid : Deliver.Sid) (post : List Deliver.Out)
     (hsplit : Deliver.run (Deliver.init cfg) ops = pre ++ Deliver.Out.closeH sid :: post) :
     ∀ e ∈ post, ¬ delFor sid e :=
-  traceOk_split (run_traceOk ops (Deliver.init cfg) hs (valid_init_of_contract cfg ops hc) (inv_init cfg)) pre sid post hsplit
+  traceOk_split (run_traceOk ops (Deliver.init cfg) hs.state
+    (valid_init_of_contract cfg ops hc (windowEmpty_of_order ops (by rw [← hs.2.2]; exact ho))) (inv_init cfg)) pre sid post hsplit
 
 open Iora.Deliver in
-/-- **T3 (engine ∘ Transport)** The hypothesis of `T3_no_delivery_after_close_transport` is a THEOREM of the engine model: take any
-engine (TCP or UDP), any configuration and any history `is` of it, and any sequential Transport history `ops` whose
-engine-originated ops are - in order, with arbitrary payloads and arbitrary `setReadMode` / `receiveSync` calls in between - the
-callbacks of that engine history (`opShape` / `outShape` project both sides to (close?, id)).  Then no accept / connect / data
-callback of the application follows the close handler of its id.  No hypothesis about the engine is left. -/
+/-- **T3 (engine ∘ Transport)** The engine hypothesis of `T3_no_delivery_after_close_transport` is a THEOREM of the engine model: take
+any engine (TCP or UDP), any configuration and any history `is` of it, and any Transport history `ops` (handler runs in the order of
+the sound configuration) whose engine-originated ops are - in order, with arbitrary payloads and arbitrary `setReadMode` /
+`receiveSync` calls in between, also inside a handler run - the callbacks of that engine history (`opShape` / `outShape` project
+both sides to (close?, id); of the two halves of a handler run the FIRST one, `closeMark`, is the engine's close event, the other
+maps to nothing).  Then no accept / connect / data callback of the application follows the close callbacks of its id.  No
+hypothesis about the engine is left. -/
 theorem T3_no_delivery_after_close_end_to_end (e : Engine) (cfg : Lifecycle.Cfg) (is : List In)
-    (dcfg : Deliver.Cfg) (hs : Sound dcfg) (ops : List Deliver.Op)
-    (hproj : ops.filterMap opShape = (after e cfg is).tr.filterMap outShape)
+    (dcfg : Deliver.Cfg) (hs : Sound dcfg) (ops : List Deliver.Op) (ho : HandlerOrder dcfg.markFirst ops)
+    (hproj : ops.filterMap (opShape dcfg.markFirst) = (after e cfg is).tr.filterMap outShape)
     (pre : List Deliver.Out) (sid : Deliver.Sid) (post : List Deliver.Out)
     (hsplit : Deliver.run (Deliver.init dcfg) ops = pre ++ Deliver.Out.closeH sid :: post) :
     ∀ ev ∈ post, ¬ delFor sid ev :=
   T3_no_delivery_after_close_transport dcfg hs ops
-    (contract_of_engine_trace (after e cfg is).tr (reachable e cfg is).inv.ord.closed ops hproj) pre sid post hsplit
+    (contract_of_engine_trace (after e cfg is).tr (reachable e cfg is).inv.ord.closed ops
+      (markBefore_of_order ops (by rw [← hs.2.2]; exact ho)) (by rw [← hs.2.2]; exact hproj)) ho pre sid post hsplit
 
 open Iora.Deliver in
 /-- the projection hypothesis is satisfiable by a non-trivial pair: the F30 engine history (two sessions, both closed by the drain)
-under a Transport history with mode switches and receives in between -/
-example : ([.engConnect 1, .setMode 1 .sync, .engClose 1, .setMode 1 .async, .recv 1 4, .engClose 2] : List Deliver.Op).filterMap opShape =
+under a Transport history with mode switches and receives in between - one of them INSIDE the handler run of session 1 -/
+example : ([.engConnect 1, .setMode 1 .sync, .closeMark 1, .setMode 1 .async, .closeCbs 1, .recv 1 4, .closeMark 2, .closeCbs 2] : List Deliver.Op).filterMap (opShape true) =
     (after .tcp {} f30History).tr.filterMap outShape := by decide
 open Iora.Deliver in
+example : HandlerOrder true [.engConnect 1, .setMode 1 .sync, .closeMark 1, .setMode 1 .async, .closeCbs 1, .recv 1 4, .closeMark 2, .closeCbs 2] := by decide
+open Iora.Deliver in
 /-- ... and with payload: connect completion and data in one event, any bytes on the Transport side -/
-example : ([.setMode 1 .disabled, .engConnect 1, .engData 1 [7, 8]] : List Deliver.Op).filterMap opShape =
+example : ([.setMode 1 .disabled, .engConnect 1, .engData 1 [7, 8]] : List Deliver.Op).filterMap (opShape true) =
     (after .tcp {} [.apiConnect .none false, .ioSwap, .ioCmd [.again, .ok, .again], .ioSession 1 true true false [.ok, .ok, .ok, .data, .again]]).tr.filterMap outShape := by decide
 
 open Iora.Deliver in
-/-- state form: after every such history an id whose close handler has run either has no read mode and a closed tombstone (which
-`setReadMode` leaves alone), or nothing buffered at all - there is nothing a flush could deliver. -/
-theorem T3_closed_ids_cannot_flush (cfg : Deliver.Cfg) (hs : Sound cfg) (ops : List Deliver.Op) (hc : EngineContract ops) (sid : Deliver.Sid)
-    (hclosed : Op.engClose sid ∈ ops) :
+/-- state form: after every such history an id whose close callbacks have been started either has no read mode and a closed tombstone
+(which `setReadMode` leaves alone), or nothing buffered at all - there is nothing a flush could deliver. -/
+theorem T3_closed_ids_cannot_flush (cfg : Deliver.Cfg) (hs : Sound cfg) (ops : List Deliver.Op) (hc : EngineContract ops)
+    (ho : HandlerOrder cfg.markFirst ops) (sid : Deliver.Sid) (hclosed : Op.closeCbs sid ∈ ops) :
     let t := runState (Deliver.init cfg) ops
     (t.modes sid = none ∧ tomb t sid = true) ∨ bufData t sid = [] :=
-  runState_safe ops (Deliver.init cfg) hs (valid_init_of_contract cfg ops hc) (inv_init cfg) sid
-    ((runState_closedH ops (Deliver.init cfg) sid).mpr (Or.inr hclosed))
+  have ho' : HandlerOrder true ops := by rw [← hs.2.2]; exact ho
+  runState_safe ops (Deliver.init cfg) hs.state (valid_init_of_contract cfg ops hc (windowEmpty_of_order ops ho')) (inv_init cfg) sid
+    ((runState_marked ops (Deliver.init cfg) sid).mpr (Or.inr (mark_mem_of_cbs_mem ops (markBefore_of_order ops ho') sid hclosed)))
+
+/-! ### the window of the callbacks-first order (the code before repair FC03c) -/
+
+open Iora.Deliver in
+/-- the full-strength statement for the OLD handler order (global close callback and observers first, the closed mark / tombstone /
+`readModes.erase` afterwards), everything else as in `T3_no_delivery_after_close_transport`, application calls inside the window
+included -/
+def T3_window_statement : Prop :=
+  ∀ (cfg : Deliver.Cfg), cfg.eraseAlways = true → cfg.tombGuard = true → cfg.markFirst = false →
+  ∀ (ops : List Deliver.Op), EngineContract ops → HandlerOrder cfg.markFirst ops →
+  ∀ (pre : List Deliver.Out) (sid : Deliver.Sid) (post : List Deliver.Out),
+    Deliver.run (Deliver.init cfg) ops = pre ++ Deliver.Out.closeH sid :: post → ∀ e ∈ post, ¬ delFor sid e
+
+open Iora.Deliver in
+/-- **refuted** (finding F2 of the second review; the defect repair FC03c removes): Sync, two bytes arrive, the handler starts its
+close callbacks, ANOTHER thread completes `setReadMode(5, Async)` - no tombstone yet, so the FC02a guard does not apply and the
+ordered flush hands the tail to the data callback after the close callback - and only then the handler marks the buffer closed. -/
+theorem T3_window_refuted : ¬ T3_window_statement := by
+  intro h
+  have h1 := h { markFirst := false } rfl rfl rfl
+    [.setMode 5 .sync, .engData 5 [170, 187], .closeCbs 5, .setMode 5 .async, .closeMark 5]
+    (contract_of_check _ (by decide)) (by decide)
+    [.modeRet 5 true] 5 [.dataCb 5 [170, 187], .modeRet 5 true] (by decide)
+  exact h1 (.dataCb 5 [170, 187]) (by simp) rfl
+
+open Iora.Deliver in
+/-- the trace of the witness, spelled out: close callback, THEN the data callback -/
+example : Deliver.run (Deliver.init { markFirst := false }) [.setMode 5 .sync, .engData 5 [170, 187], .closeCbs 5, .setMode 5 .async, .closeMark 5] =
+    [.modeRet 5 true, .closeH 5, .dataCb 5 [170, 187], .modeRet 5 true] := by decide
+open Iora.Deliver in
+/-- ... the same calls around a handler run of the repaired order: the switch inside the handler is vacuous, the tail stays for receiveSync -/
+example : Deliver.run (Deliver.init {}) (.setMode 5 .sync :: .engData 5 [170, 187] :: handlerOps true 5 [.setMode 5 .async] ++ [.recv 5 8, .recv 5 8]) =
+    [.modeRet 5 true, .modeRet 5 true, .closeH 5, .recvRet 5 (.bytes [170, 187]), .recvRet 5 .peerClosed] := by decide
+
+open Iora.Deliver in
+/-- **partial** (what holds of the callbacks-first order, and of ANY order): if no op stands inside a window - at every op, every id
+whose close callbacks have been started has been marked closed too, unless the op is that very mark (`WindowEmpty`; for the
+callbacks-first order: the two halves of every handler run are adjacent in the history, the old sequential model) - then nothing is
+delivered after the close.  The order flag plays no role: `T3_no_delivery_after_close_transport` is the instance "mark-first
+histories have no window". -/
+theorem T3_window_partial (cfg : Deliver.Cfg) (he : cfg.eraseAlways = true) (hg : cfg.tombGuard = true)
+    (ops : List Deliver.Op) (hc : EngineContract ops) (hw : WindowEmpty ops)
+    (pre : List Deliver.Out) (sid : Deliver.Sid) (post : List Deliver.Out)
+    (hsplit : Deliver.run (Deliver.init cfg) ops = pre ++ Deliver.Out.closeH sid :: post) :
+    ∀ e ∈ post, ¬ delFor sid e :=
+  traceOk_split (run_traceOk ops (Deliver.init cfg) ⟨he, hg⟩ (valid_init_of_contract cfg ops hc hw) (inv_init cfg)) pre sid post hsplit
+
+open Iora.Deliver in
+/-- the partial theorem's hypothesis is satisfiable by a callbacks-first history with calls before and after the (empty) window -/
+example : WindowEmpty (.setMode 5 .sync :: .engData 5 [1] :: handlerOps false 5 [] ++ [.setMode 5 .async, .recv 5 1]) := by
+  intro pre o post h s hc
+  have : s = 5 := by
+    have hm : Op.closeCbs s ∈ (.setMode 5 .sync :: .engData 5 [1] :: handlerOps false 5 [] ++ [.setMode 5 .async, .recv 5 1] : List Deliver.Op) := by
+      rw [h]; exact List.mem_append_left _ hc
+    simpa [handlerOps] using hm
+  subst this
+  match pre, h with
+  | [], h => simp at hc
+  | [_], h => simp [handlerOps] at h hc; simp [← h.1] at hc
+  | [_, _], h => simp [handlerOps] at h hc; simp [← h.1, ← h.2.1] at hc
+  | [_, _, _], h => simp [handlerOps] at h; right; exact h.2.2.2.1.symm
+  | _ :: _ :: _ :: a :: r, h => simp [handlerOps] at h; left; simp [← h.2.2.2.1]
 
 open Iora.Deliver in
 /-- the engine contract is needed: data the ENGINE reports after its own close goes straight to the data callback (Async) -/
-example : Deliver.run (Deliver.init {}) [.engClose 5, .engData 5 [1]] = [.closeH 5, .dataCb 5 [1]] := by decide
+example : Deliver.run (Deliver.init {}) [.closeMark 5, .closeCbs 5, .engData 5 [1]] = [.closeH 5, .dataCb 5 [1]] := by decide
 open Iora.Deliver in
 /-- FC02a, the unrepaired variant (`tombGuard := false`): Sync, two bytes arrive, close, then Sync and Async again - the tail is
 flushed through the data callback after the close -/
-example : Deliver.run (Deliver.init { tombGuard := false }) [.setMode 5 .sync, .engData 5 [170, 187], .engClose 5, .setMode 5 .sync, .setMode 5 .async] =
+example : Deliver.run (Deliver.init { tombGuard := false }) [.setMode 5 .sync, .engData 5 [170, 187], .closeMark 5, .closeCbs 5, .setMode 5 .sync, .setMode 5 .async] =
     [.modeRet 5 true, .closeH 5, .modeRet 5 true, .dataCb 5 [170, 187], .modeRet 5 true] := by decide
 open Iora.Deliver in
 /-- ... the same history on the repaired code: both switches are vacuous (true, nothing registered, nothing flushed), the tail stays for
 receiveSync, then PeerClosed -/
-example : Deliver.run (Deliver.init {}) [.setMode 5 .sync, .engData 5 [170, 187], .engClose 5, .setMode 5 .sync, .setMode 5 .async, .recv 5 8, .recv 5 8] =
+example : Deliver.run (Deliver.init {}) [.setMode 5 .sync, .engData 5 [170, 187], .closeMark 5, .closeCbs 5, .setMode 5 .sync, .setMode 5 .async, .recv 5 8, .recv 5 8] =
     [.modeRet 5 true, .closeH 5, .modeRet 5 true, .modeRet 5 true, .recvRet 5 (.bytes [170, 187]), .recvRet 5 .peerClosed] := by decide
 open Iora.Deliver in
 /-- seeded change C02-c (`eraseAlways := false`): the mode survives the close of an undrained session and ONE switch to Async flushes -/
-example : Deliver.run (Deliver.init { eraseAlways := false, tombGuard := false }) [.setMode 5 .sync, .engData 5 [1], .engClose 5, .setMode 5 .async] =
+example : Deliver.run (Deliver.init { eraseAlways := false, tombGuard := false }) [.setMode 5 .sync, .engData 5 [1], .closeMark 5, .closeCbs 5, .setMode 5 .async] =
     [.modeRet 5 true, .closeH 5, .dataCb 5 [1], .modeRet 5 true] := by decide
 open Iora.Deliver in
-/-- the hypothesis is satisfiable by a non-trivial history (data before the close, calls after it) -/
-example : EngineContract [.engAccept 5, .setMode 5 .sync, .engData 5 [1], .engClose 5, .setMode 5 .async, .recv 5 1] :=
+/-- the hypotheses are satisfiable by a non-trivial history (data before the close, a call inside the handler run, calls after it) -/
+example : EngineContract [.engAccept 5, .setMode 5 .sync, .engData 5 [1], .closeMark 5, .setMode 5 .async, .closeCbs 5, .setMode 5 .async, .recv 5 1] :=
   contract_of_check _ (by decide)
+open Iora.Deliver in
+example : HandlerOrder true [.engAccept 5, .setMode 5 .sync, .engData 5 [1], .closeMark 5, .setMode 5 .async, .closeCbs 5, .setMode 5 .async, .recv 5 1] := by decide
 
 end Iora.C02
